@@ -14,17 +14,17 @@ import (
 // Variant is one self-test case: a textual edit of one repository file, applied in memory
 // (packages.Config.Overlay) — the disk is never touched.
 type Variant struct {
-	Name     string
-	Prop     string // property whose rule it exercises
-	Rule     string // rule expected to report (breaking) / stay silent (neutral)
-	File     string // path relative to the repository root
-	Old, New string // Old must occur exactly once in the current file, else the variant is stale
-	Edits    []Edit // further edits (other files or other places)
-	Patch    string // alternatively: a unified diff under /verif (seeded change), applied in memory
+	Name      string
+	Prop      string // property whose rule it exercises
+	Rule      string // rule expected to report (breaking) / stay silent (neutral)
+	File      string // path relative to the repository root
+	Old, New  string // Old must occur exactly once in the current file, else the variant is stale
+	Edits     []Edit // further edits (other files or other places)
+	Patch     string // alternatively: a unified diff under /verif (seeded change), applied in memory
 	Transform string // alternatively: a behaviour-preserving AST rewrite of every library file (transforms.go)
-	Breaking bool
-	Expect   string // substring expected in the reported construct key (breaking only)
-	Note     string
+	Breaking  bool
+	Expect    string // substring expected in the reported construct key (breaking only)
+	Note      string
 }
 
 type Edit struct {
